@@ -54,6 +54,7 @@ def worker(payload):
         corr_ok = True
         used = set()
         addmix_after_use = False
+        warm20 = set()
         for j, (a, b) in enumerate(zip(r["ops"], im)):
             out["ops"] += 1
             op = sc["ops"][j]
@@ -67,8 +68,23 @@ def worker(payload):
                 corr_ok = False  # keep evaluating the oracle, which does not depend on the model's state
             if op[0] == "addmix" and used:
                 addmix_after_use = True
+            if op[0] in ("reg", "unreg", "addmix"):
+                warm20 = set()
             if op[0] != "call":
                 continue
+            # C20 across derived functions: a call that already succeeded on this function resolves nothing when it
+            # is repeated while no method set has changed (calls of OTHER functions, e.g. the first call of a parent,
+            # are not changes)
+            k20 = json.dumps([op[1], op[2]])
+            if "nres" in b:
+                o20 = orc("C20")
+                if k20 in warm20:
+                    o20["n"] += 1
+                    o20["nontrivial"] += 1
+                    if b["nres"] > 0:
+                        o20["viol"].append({"law": "a repeated successful call resolved again although no method set had changed", "nres": b["nres"], "kind": "graph", "world": w.desc, "scenario": {**sc, "ops": sc["ops"][: j + 1]}, "op_index": j})
+                if b["o"] and b["o"][0] == "ran":
+                    warm20.add(k20)
             e = exp_of.get(j, a.get("exp"))
             if e["o"] and e["o"][0] == "ambiguous":
                 e["o"] = ["ambiguous"]
@@ -77,6 +93,11 @@ def worker(payload):
             if op[1] in used and len(used) > 1:
                 o16["nontrivial"] += 1
             bodies = {d["id"]: d["body"][0] for d in sc["defs"]}
+            if any(bodies.get(t[0]) == "callNext" for t in mb["t"]):
+                o7 = orc("C07")
+                o7["n"] += 1
+                if len(mb["t"]) > 1:
+                    o7["nontrivial"] += 1
             if any(bodies.get(t[0]) == "recurse" for t in mb["t"]):
                 o8 = orc("C08")
                 o8["n"] += 1
@@ -93,6 +114,8 @@ def worker(payload):
                 if op[1] in used:
                     o5["viol"].append({"law": "a function already in use does not answer like a brand-new function over the method set resulting from the changes made since", **wit})
                 o16["viol"].append({"law": "a function in use does not behave like the overlay of its ancestors' and its own current definitions", **wit})
+                if any(bodies.get(t[0]) == "callNext" for t in e["t"] + mb["t"]):
+                    orc("C07")["viol"].append({"law": "a call_next chain in a derived function differs from the chain of a fresh function over its current definitions", **wit})
                 if any(bodies.get(t[0]) == "recurse" for t in e["t"] + mb["t"]):
                     orc("C08")["viol"].append({"law": "recurse did not re-enter the function that was called (behaviour differs from a fresh function over the overlay)", **wit})
             used.add(op[1])
